@@ -40,7 +40,7 @@ for d in sorted(glob.glob(root + '/C*-*')):
             'result': confirm,
         },
         'detection': {
-            'command': 'tools/check_mutant.sh %s  (git -C /repo apply patch.diff; /verif/bin/govc check --property %s --tier quick; git -C /repo checkout -- .)' % (sid, prop),
+            'command': 'tools/check_mutant.sh %s  (scratch worktree of /repo HEAD; git apply patch.diff there; /verif/bin/govc check --repo <worktree> --property %s --tier quick; worktree removed)' % (sid, prop),
             'detected_by_own_property_quick_check': detected,
             'failing_obligations': obls,
             'counterexample_replayed_on_real_code': bool(replayed),
